@@ -10,7 +10,7 @@ PROP = dict(
               "C10_torn_extension_conservative", "C10_empty_version_file_fails_closed", "C10_empty_version_file_stays_closed",
               "C10_empty_version_file_no_mismatch",
               "C10_live_extension_conservative", "C10_live_holder_excludes", "C10_stalled_call_holds_lock", "C10_parked_call_keeps_lock",
-              "C10_failed_handle_still_refused", "C10_failed_handle_jobstatus_still_refused", "C10_failed_write_version_reused"],
+              "C10_failed_handle_still_refused", "C10_failed_handle_jobstatus_still_refused", "C10_failed_write_not_ahead", "C10_older_copy_rejected_after_failed_writes"],
     suites=["cluster"],
     level_text="Machine-checked Lean theorems over a model of jade/jobs/cluster.py with any number of handles on any hosts, for "
                "ALL sequences of public API calls (induction over the operation list; invariants RoleInv / Coherent): promotion "
